@@ -20,11 +20,10 @@ def run(c, replay):
         "roots are not hidden names and not on the skip list",
         "the walk is parallel, results are compared as multisets; GOMAXPROCS=2 per worker (fastwalk still runs >= 4 goroutines)",
     ]
-    import os
-    env = {"GOMAXPROCS": os.environ.get("C19_GMP", "2")}
+    env = {"GOMAXPROCS": "2", "GOGC": "400"}
     if replay:
         c.run_layer(b, "TestVerif_C19_walker", "walker", replay=replay, deadline_s=120, env=env)
         return
-    c.run_layer(b, "TestVerif_C19_walker", "walker", deadline_s=int(os.environ.get("C19_DL", c.pick(55, 780))), env=env,
+    c.run_layer(b, "TestVerif_C19_walker", "walker", deadline_s=c.pick(55, 780), env=env,
                 rule="every tree within the bounds (states) x 12 walker values x 6 skip lists x 1-2 root forms, real Reader.readFiles vs a "
                      "reference walker on os.ReadDir/Lstat/Stat, multisets of delivered paths; non-trivial = walks with a non-empty expected list")
